@@ -121,7 +121,13 @@ def run_batch(work, binary, verdict, run, seed, tag, stats):
     stats["monitor_predicates_evaluated"] += r.distinct * len(run["preds"])
     viols = sorted(((int(line) - 1, pred) for pred, line in r.prints("VIOL")))
     hit_in_trace = {}   # trace start -> ids of known findings matched earlier in that trace
+    shapes = stats.setdefault("_shapes", {})
     for idx, pred in viols:
+        # a broken tree violates the same predicate thousands of times: a handful of replay files per predicate and configuration
+        # (violations that a finding: line might explain are always looked at, they cost nothing: no file is written for them)
+        if not verdict.known and shapes.get((pred, name), 0) >= 5:
+            stats["violations_not_written"] = stats.get("violations_not_written", 0) + 1
+            continue
         feat = features_of(pred, lines, idx, name)
         start = max(i for i in resets if i <= idx)
         feat["trace"] = resets.index(start)
@@ -136,6 +142,11 @@ def run_batch(work, binary, verdict, run, seed, tag, stats):
         def writer(path, start=start, idx=idx):
             json.dump({"property": verdict.prop, "cfg": name, "predicate": pred, "job": dict({k: job[k] for k in ("drain", "notime", "zerowait")}, tb=lines[start].get("tb", [])),
                        "schedule": schedule_of(lines, start, idx), "events": lines[start:idx + 1]}, open(path, "w"))
+        if not v.match_known(verdict.known, feat):
+            if shapes.get((pred, name), 0) >= 5:
+                stats["violations_not_written"] = stats.get("violations_not_written", 0) + 1
+                continue
+            shapes[(pred, name)] = shapes.get((pred, name), 0) + 1
         verdict.report(feat, writer)
     if not stats["samples"]:
         stats["samples"].append({"cfg": name, "first_events": [{k: e[k] for k in e if k != "post"} for e in lines[:12]]})
@@ -183,6 +194,7 @@ def run_property(prop, tier, seed, plan):
             if r is not None and (r.invariants_violated or r.temporal_violated):
                 # a design-level counterexample: only a real trace can turn it into a verdict (DESIGN 2.2)
                 stats.setdefault("model_counterexamples", []).append({"cfg": name, "invariants": r.invariants_violated})
+    stats.pop("_shapes", None)     # tuple keys: bookkeeping only
     verdict.coverage.update(stats)
     verdict.coverage["predicates"] = sorted({p for r in plan["runs"] for p in r["preds"]})
     verdict.assumptions = plan.get("assumptions", [])
